@@ -15,7 +15,7 @@ warnings.simplefilter("ignore")
 from pams.simulator import Simulator  # noqa: E402
 
 ID = "C17"
-RULE = ("(sim) Hypothesis generates 2-4 component markets with unequal outstandingShares (1..10^6, and values whose sum exceeds 2^63), an index market over 2..all "
+RULE = ("(one case in four has a component of a user-defined market class that publishes its own price / fundamental numbers -- the index averages what its components report; one in four carries the obsolete requires key, which adds no component) (sim) Hypothesis generates 2-4 component markets with unequal outstandingShares (1..10^6, and values whose sum exceeds 2^63), an index market over 2..all "
         "of them, volatile fundamentals, fundamental shocks, and scripted agents trading components and index. At every "
         "before-step hook, every step-end record and at the end, for every t <= now: get_index(t) == get_market_index(t) == "
         "compute_market_index(t) == sum(s_i p_i(t)) / sum(s_i) (math.fsum reference, rel 1e-12); at the first observation "
